@@ -113,8 +113,8 @@ def cuts_for(case: t.Dict[str, t.Any], n: int) -> t.List[int]:
     if case["mode"] == "one" or n == 0:
         return []
     if case["mode"] == "bytes":
-        if n > 1200:  # byte-wise delivery re-parses the buffer on every call: keep long streams affordable
-            step = n // 600 + 1
+        if n > 400:  # byte-wise delivery re-parses the buffer on every call: keep long streams affordable
+            step = n // 80 + 1
             return list(range(1, n, step))
         return list(range(1, n))
     cuts = sorted(c % (n + 1) for c in case["cuts"])
@@ -331,6 +331,57 @@ class AllCuts(Part):
         return check_case(full, ctx, cuts=list(case["cuts"]))
 
 
+class Bulk(Part):
+    """Very large messages and very long runs of messages (finite list, enumerated): limits hidden in the buffering
+    (bytes pending, messages per call) make the outcome depend on the chunking."""
+
+    name = "bulk"
+    exhaustive = True
+    shards = {QUICK: 8, THOROUGH: 16}
+
+    def enumerate(self, tier: str, shard: int, nshards: int) -> t.Iterable[t.Any]:
+        k = 0
+        sizes = [2**16 + 1, 2**18 + 9, 2**20 + 5] + ([2**22 + 3, 2**24 + 1] if tier == THOROUGH else [])
+        runs = [513, 1025, 5000] + ([70000] if tier == THOROUGH else [])
+        for side in ("server", "client"):
+            for size in sizes:
+                for frac in (0.001, 0.3, 0.6, 0.999):
+                    if k % nshards == shard:
+                        yield {"side": side, "what": "large", "n": size, "cuts": [int(size * frac) + 11]}
+                    k += 1
+                if k % nshards == shard:
+                    yield {"side": side, "what": "large", "n": size, "cuts": [7, size // 2, size // 2, size - 3, size + 20]}
+                k += 1
+            for n in runs:
+                for cuts in ([], [n * 3], [5, n * 5 + 2], [n * 4 + 1, n * 4 + 2, n * 8]):
+                    if k % nshards == shard:
+                        yield {"side": side, "what": "run", "n": n, "cuts": cuts}
+                    k += 1
+
+    def _case(self, c: t.Any) -> t.Dict[str, t.Any]:
+        if c["side"] == "server":
+            big = {"kind": "extendedReq", "id": 1, "controls": [], "name": "1.2.3", "value": b"\x5a" * c["n"]}
+            small = {"kind": "extendedReq", "id": 2, "controls": [], "name": "1.2", "value": None}
+            prep: t.List[t.Any] = []
+        else:
+            big = {"kind": "searchResEntry", "rid": 0, "id": 0, "controls": [], "name": "cn=big", "attributes": [("jpegPhoto", [b"\x5a" * c["n"]])]}
+            small = {"kind": "searchResEntry", "rid": 0, "id": 0, "controls": [], "name": "cn=e", "attributes": []}
+            prep = [("search",)]
+        if c["what"] == "large":
+            msgs = [small, big, small]
+        else:
+            msgs = [dict(small, id=(i + 10)) if c["side"] == "server" else small for i in range(c["n"])]
+        return {"side": c["side"], "prep": prep, "msgs": msgs, "libenc": [False] * len(msgs), "mode": "enum", "containers": [1, 2, 0]}
+
+    def check(self, c: t.Any, ctx: Ctx) -> t.List[Violation]:
+        ctx.event(f"bulk:{c['what']}")
+        ctx.nontrivial((c["side"], c["what"], c["n"], tuple(c["cuts"])))
+        return check_case(self._case(c), ctx, cuts=sorted(c["cuts"]))
+
+    def sample(self, c: t.Any) -> t.Any:
+        return c
+
+
 def _selftest(tier: str, seed: int) -> None:
     # framing reference agrees with the full reader on a couple of generated streams
     a = rfc4511.encode(_ENUM_CASES[0]["msgs"][0]) + rfc4511.encode(_ENUM_CASES[0]["msgs"][1])
@@ -349,13 +400,14 @@ PROP = Property(
         "final response otherwise), each message encoded by the reference encoder or the library, and a chunking (cut "
         "list with duplicates = empty chunks, one delivery, byte-at-a-time) with each chunk handed over as bytes / "
         "bytearray / memoryview and overwritten with 0xAA right after receive returns; plus ALL one- and two-cut "
-        "chunkings (thorough: also all three-cut chunkings) of five short streams. Oracle: chunked delivery returns exactly the generated messages in order "
+        "chunkings (thorough: also all three-cut chunkings) of five short streams, and a list of bulk cases (messages of 64 KiB.."
+        "1 MiB, thorough 16 MiB; runs of 513..5000, thorough 70000, messages) with cuts at chosen places. Oracle: chunked delivery returns exactly the generated messages in order "
         "(projection equality, exact types => no views into the caller's buffer), no exception, same final state, same "
         "in-progress set (clone probes) and same handling of a following message as a single delivery. Non-trivial = a "
         "cut strictly inside a PDU's identifier/length octets, a chunk spanning a PDU boundary, or an empty chunk "
         "between two partial chunks; distinct by (stream, cuts)."
     ),
-    parts=[Streams(), AllCuts()],
+    parts=[Streams(), AllCuts(), Bulk()],
     assumptions=[
         "only error-free sequences (no unbind / notice of disconnection / protocol violation): a ProtocolError discards what was decoded in the same call",
         "requests delivered to a server carry distinct ids",
